@@ -2,10 +2,13 @@ package mon
 
 import (
 	"fmt"
+	"io"
 	"math/rand"
 	"strings"
+	"testing/iotest"
 
 	"github.com/go-gts/gts"
+	"github.com/go-gts/gts/seqio"
 
 	"verifharness/fw"
 	"verifharness/gen"
@@ -18,11 +21,18 @@ func init() { register(c06{}) }
 
 func (c06) ID() string { return "C06" }
 func (c06) Rule() string {
-	return "values: every location of gen.Universe(L<=6,arity<=3) and seeded locations built with the public constructors (Join/Order/.Complement/PartialRange; depth<=3, 1..5 parts, incl. abutting, duplicate, overlapping and single-base parts): AsLocation(v.String()) must succeed, print identically and have equal atoms (residues, sites, strand, ambiguity) and open-end markers. strings: printed values, the legacy trailing '>' spelling, 1-3 character mutations of printed values, and random strings over the location alphabet: for every accepted string print(parse(s)) must be a fixed point of parse-then-print. text: expressions assembled by the harness over pairwise separated leaves (points, between-sites, partial ranges, ambiguous spans; join/order/complement nested up to depth 3, members in any order): AsLocation(text) must denote exactly what the expression says (the model reads it off a literal value no library constructor touched): same residues, sites, strands, order, open-end markers, join vs order; and its print must read back to the same. reduction: for raw part lists P (abutting, duplicate, single-base, zero-length, complemented members) Join(P...) and Order(P...) must denote the same set of residues in the same order of first occurrence, on the same strands, as the concatenation of the members. non-trivial: a list location, a partial end, or a string that is not a printed value; distinct: canonical case text."
+	return "values: every location of gen.Universe(L<=6,arity<=3) and seeded locations built with the public constructors (Join/Order/.Complement/PartialRange; depth<=3, 1..5 parts, incl. abutting, duplicate, overlapping and single-base parts): AsLocation(v.String()) must succeed, print identically and have equal atoms (residues, sites, strand, ambiguity) and open-end markers. strings: printed values, the legacy trailing '>' spelling, 1-3 character mutations of printed values, and random strings over the location alphabet: for every accepted string print(parse(s)) must be a fixed point of parse-then-print. text: expressions assembled by the harness over pairwise separated leaves (points, between-sites, partial ranges, ambiguous spans; join/order/complement nested up to depth 3, members in any order): AsLocation(text) must denote exactly what the expression says (the model reads it off a literal value no library constructor touched): same residues, sites, strands, order, open-end markers, join vs order; and its print must read back to the same. reduction: for raw part lists P (abutting, duplicate, single-base, zero-length, complemented members) Join(P...) and Order(P...) must denote the same set of residues in the same order of first occurrence, on the same strands, as the concatenation of the members. non-trivial: a list location, a partial end, or a string that is not a printed value; distinct: canonical case text. Every harness-written location text is also read from the location column of a GenBank record: on one line / continued behind each comma, LF / CRLF, the record delivered whole / byte by byte / with a 4096-byte read boundary at every offset of the text; each spelling must denote what the text denotes."
 }
 func (c06) RequiredBuckets(tier string) []string {
 	out := []string{"value:roundtrip", "string:accepted", "string:rejected", "string:legacy-gt", "string:mutated", "string:random", "reduce:join", "reduce:order",
 		"reduce:abutting", "reduce:duplicate", "reduce:site-absorbed", "reduce:complemented-members", "depth:3", "text:denotation", "text:depth>=3"}
+	for _, a := range []string{"one-line", "continued"} {
+		for _, b := range []string{"lf", "crlf"} {
+			for _, d := range []string{"whole", "byte-by-byte", "block-boundary-inside"} {
+				out = append(out, "text:table-column:"+a+":"+b+":"+d)
+			}
+		}
+	}
 	for _, k := range []string{"point", "site", "range", "prange", "ambiguous", "join", "order", "c-range", "c-join", "c-order"} {
 		out = append(out, "kind|"+k)
 	}
@@ -647,5 +657,85 @@ func (m c06) checkText(c *fw.Ctx, n *c06Node) {
 	}
 	if ok, why := sameDenotation(exp, model.Parts(again), false); !ok {
 		c.Violate("text:print-denotes-other-"+why, enc, model.PartsString(exp), ps+" = "+model.PartsString(model.Parts(again)))
+		return
 	}
+	// The same text in the location column of a feature table, as flat files
+	// spell it: on one line or continued behind a comma, LF or CRLF line ends,
+	// delivered by the reader in one piece, byte by byte, or with a read
+	// boundary inside the text. Every spelling denotes what the text denotes.
+	c06Tick++
+	hi := 1
+	for _, q := range exp {
+		if q.Hi > hi {
+			hi = q.Hi
+		}
+	}
+	for v := 0; v < 1; v++ {
+		variant := (c06Tick + v*5) % 12
+		cont, crlf, rd := variant%2 == 1, (variant/2)%2 == 1, variant/4
+		loctext := s
+		if cont {
+			loctext = strings.ReplaceAll(s, ",", ",\n                     ")
+		}
+		doc := c06Record(loctext, hi)
+		if rd == 2 {
+			// the read boundary of a block reader falls inside the text.
+			at := strings.Index(doc, loctext)
+			k := (c06Tick / 12) % (len(loctext) + 1)
+			pad := (4096 - (at+k)%4096) % 4096
+			doc = strings.Replace(doc, "COMMENT     x\n", "COMMENT     x"+strings.Repeat("y", pad)+"\n", 1)
+		}
+		if crlf {
+			doc = strings.ReplaceAll(doc, "\n", "\r\n")
+		}
+		var src io.Reader = strings.NewReader(doc)
+		if rd == 1 {
+			src = iotest.OneByteReader(src)
+		}
+		name := fmt.Sprintf("table-column:%s:%s:%s", map[bool]string{false: "one-line", true: "continued"}[cont], map[bool]string{false: "lf", true: "crlf"}[crlf], []string{"whole", "byte-by-byte", "block-boundary-inside"}[rd])
+		var tab []gts.Feature
+		var serr error
+		if p, val, site, stack := fw.Guard(func() {
+			sc := seqio.NewScanner(seqio.GenBankParser, src)
+			if sc.Scan() {
+				tab = sc.Value().Features()
+			}
+			serr = sc.Err()
+		}); p {
+			c.ViolateX("text:"+name+":"+panicClass(site, val), enc, "no panic", fmt.Sprint(val), stack, nil)
+			return
+		}
+		c.Bucket("text:" + name)
+		if serr != nil || len(tab) != 2 {
+			c.Violate("text:"+name+":not-read", enc, "a record with the feature and the one listed behind it", fmt.Sprintf("error %v, %d feature(s)", serr, len(tab)))
+			return
+		}
+		if ok, why := sameDenotation(exp, model.Parts(tab[0].Loc), false); !ok {
+			c.Violate("text:"+name+":denotes-other-"+why, enc, model.PartsString(exp), model.SafeString(tab[0].Loc))
+			return
+		}
+	}
+}
+
+var c06Tick int
+
+// c06Record is a GenBank record whose first feature has the given text in its
+// location column; a second feature follows it.
+func c06Record(loctext string, hi int) string {
+	var b strings.Builder
+	fmt.Fprintf(&b, "LOCUS       C06 %18d bp    DNA     linear   UNA 01-JAN-2020\nDEFINITION  d\nCOMMENT     x\nFEATURES             Location/Qualifiers\n", hi)
+	fmt.Fprintf(&b, "     misc_feature    %s\n                     /label=\"f0\"\n     gene            1\n                     /label=\"f1\"\nORIGIN      \n", loctext)
+	for i := 0; i < hi; i += 60 {
+		fmt.Fprintf(&b, "%9d", i+1)
+		for j := i; j < i+60 && j < hi; j += 10 {
+			n := 10
+			if j+n > hi {
+				n = hi - j
+			}
+			b.WriteString(" " + strings.Repeat("a", n))
+		}
+		b.WriteString("\n")
+	}
+	b.WriteString("//\n")
+	return b.String()
 }
